@@ -88,6 +88,32 @@ func VHStack() {
 
 // VHQueuePhases / VHStackPhases: long structured histories - fill, partial drain, refill past
 // any internal capacity, drain completely - with every combination of phase lengths up to P.
+// c16len picks a phase length: every length up to P, or (SPARSE) a length around a power of
+// two up to 64 - the places where chunked or ring-buffer representations wrap, grow or recycle.
+func c16len(name string, p, max int) int {
+	if vParam("SPARSE") == 0 {
+		n := p
+		if max >= 0 && max < n {
+			n = max
+		}
+		return vChoose(name, n+1)
+	}
+	cand := []int{0, 1, 2, 7, 8, 9, 16, 17, 31, 32, 33, 34, 64, 65}
+	var ok []int
+	for _, c := range cand {
+		if max < 0 || c <= max {
+			ok = append(ok, c)
+		}
+	}
+	if max > 0 {
+		ok = append(ok, max) // drain completely
+		if max > 1 {
+			ok = append(ok, max-1)
+		}
+	}
+	return ok[vChoose(name, len(ok))]
+}
+
 func VHQueuePhases() {
 	var q Queue[int]
 	var model []int
@@ -112,10 +138,10 @@ func VHQueuePhases() {
 		}
 		vAssert(q.Len() == len(model), "phases: Len is the number of values inside")
 	}
-	phase(true, vChoose("fill", p+1))
-	phase(false, vChoose("drain", len(model)+1))
-	phase(true, vChoose("refill", p+1))
-	phase(false, vChoose("drain2", len(model)+1))
+	phase(true, c16len("fill", p, -1))
+	phase(false, c16len("drain", p, len(model)))
+	phase(true, c16len("refill", p, -1))
+	phase(false, c16len("drain2", p, len(model)))
 	phase(true, vChoose("refill2", 3))
 	phase(false, len(model))
 	_, ok := q.Dequeue()
@@ -142,9 +168,9 @@ func VHStackPhases() {
 		}
 		vAssert(len(s) == len(model), "phases: len is the number of values inside")
 	}
-	phase(true, vChoose("fill", p+1))
-	phase(false, vChoose("drain", len(model)+1))
-	phase(true, vChoose("refill", p+1))
+	phase(true, c16len("fill", p, -1))
+	phase(false, c16len("drain", p, len(model)))
+	phase(true, c16len("refill", p, -1))
 	phase(false, len(model))
 	_, ok := s.Pop()
 	vAssert(!ok, "phases: the drained stack is empty")
